@@ -202,8 +202,8 @@ func c15Seq(tier string) []SeqJob {
 		out = append(out, SeqJob{Name: name, Spec: spec, Seconds: secs})
 	}
 	if tier == "quick" {
-		mk("seq/setbuf1/depth6", 1, 6, 40)
-		mk("seq/setbuf3/depth5", 3, 5, 40)
+		mk("seq/setbuf1/depth7", 1, 7, 40)
+		mk("seq/setbuf3/depth6", 3, 6, 40)
 	} else {
 		mk("seq/setbuf1/depth8", 1, 8, 560)
 		mk("seq/setbuf2/depth7", 2, 7, 560)
